@@ -36,6 +36,7 @@ Advertise(e) ==
         Gp == e.gpoly
     IN /\ Chk(f[1] < 0 \/ f[1] = cur.n, "length_matches_family_formula")
        /\ Chk(f[2] < 0 \/ f[2] = cur.k, "dimension_matches_family_formula")
+       /\ Chk(Cardinality(DOMAIN cur.B) = cur.k, "advertised_dimension_is_the_true_dimension_of_the_code")
        /\ Chk(f[3] = 0 \/ e.d = f[3], "advertised_distance_matches_family_formula")
        /\ Chk(e.rate6 = (cur.k * 1000000 + (cur.n \div 2)) \div cur.n \/ e.rate6 = (cur.k * 1000000) \div cur.n, "rate_is_k_over_n")
        /\ Chk(dmin < 0 \/ e.d <= 0 \/ dmin >= e.d, "true_distance_at_least_advertised")
